@@ -10,7 +10,9 @@
      rewrite <src> <filename> <adf|hdf5>          rewrite_file / cgio_compress_file / cgnscompress
      dump <file>                                  canonical dump, links reported
      view <file>                                  canonical dump of the fully resolved view
-     diff <f1> <f2> <d 0|1> <f 0|1>               cgnsdiff's standard output
+     mver old|cur                                 the matching code before / after /repo 180fd8e (default cur)
+     diff <f1> <f2> <opts>                        cgnsdiff's standard output; opts over d f c i, "-" for none
+     diffds <f1> <ds1> <f2> <ds2> <opts>          dataset mode (opts may contain r)
    output: dump lines as harness/c09_ops.c prints them, closed by "E <status>". *)
 open Model
 open Zutil
@@ -49,6 +51,7 @@ let print_dline (d : dline) =
   | DRight a -> Stdlib.Printf.printf "> %s\n" (s a)
   | DErrExit -> print_string "!err_exit\n"
   | DPathOverflow -> print_string "!path_overflow\n"
+  | DOutOfBounds -> print_string "!out_of_bounds\n"
   | DFuel -> print_string "!fuel\n"
 
 (* pre-order (depth, node-without-children) list -> forest *)
@@ -67,6 +70,7 @@ let fuel = nat_of_int 200
 let run () =
   let w : ((z list * node) list) ref = ref [] in
   let cur : (z list * bool * item list) option ref = ref None in
+  let mv = ref MCur in
   let status r = match r with Ok _ -> "ok" | Err -> "err" | OutOfFuel -> "fuel" | Overflow -> "overflow" in
   (try while true do
     let line = input_line stdin in
@@ -117,10 +121,21 @@ let run () =
                       | Some v -> dump_kids "" (kids_of v); print_string "E ok\n"
                       | None -> print_string "E none\n")
          | None -> print_string "E err\n")
-    | ["diff"; f1; f2; d; fl] ->
+    | ["mver"; x] -> mv := (if x = "old" then MOld else MCur)
+    | ["diff"; f1; f2; opts] ->
+        (* opts: a string over d f c i (or "-"); whole-file mode forces recurse *)
+        let has c = Stdlib.String.contains opts c in
+        let o = { d_data = has 'd'; d_follow = has 'f'; d_case = has 'c'; d_space = has 'i'; d_recurse = true } in
         print_string "B diff\n";
-        Stdlib.List.iter print_dline (cgnsdiff Cur (d = "1") (fl = "1") !w !w fuel (bytes_of_hex f1) (bytes_of_hex f2));
+        Stdlib.List.iter print_dline (cgnsdiff Cur !mv o !w !w fuel (bytes_of_hex f1) (bytes_of_hex f2));
         print_string "E diff\n"
+    | ["diffds"; f1; ds1; f2; ds2; opts] ->
+        (* dataset mode: cgnsdiff [opts] file1 ds1 file2 ds2 ; r = -r *)
+        let has c = Stdlib.String.contains opts c in
+        let o = { d_data = has 'd'; d_follow = has 'f'; d_case = has 'c'; d_space = has 'i'; d_recurse = has 'r' } in
+        print_string "B diffds\n";
+        Stdlib.List.iter print_dline (cgnsdiff_ds Cur !mv o !w !w fuel (bytes_of_hex f1) (bytes_of_hex ds1) (bytes_of_hex f2) (bytes_of_hex ds2));
+        print_string "E diffds\n"
     | [""] -> ()
     | _ -> if Stdlib.String.length line > 0 && line.[0] = '#' then () else Stdlib.Printf.printf "badline %s\n" line
   done with End_of_file -> ())
